@@ -358,6 +358,27 @@ fn gen_inner(r: &mut Rng, dt: &Value, cfg: &ValCfg) -> Value {
                 gen_seq_wrap(r, b.iter().map(|x| sval::int("u8", *x as i128)).collect())
             }
         }
+        "Date32" | "Date64" if r.chance(1, 4) => {
+            sval::string(&format!("{:04}-{:02}-{:02}", 1900 + r.below(200), 1 + r.below(12), 1 + r.below(28)))
+        }
+        "Time32" | "Time64" if r.chance(1, 4) => {
+            let frac = match r.below(3) {
+                0 => String::new(),
+                1 => format!(".{:03}", r.below(1000)),
+                _ => format!(".{:09}", r.below(1_000_000_000)),
+            };
+            sval::string(&format!("{:02}:{:02}:{:02}{}", r.below(24), r.below(60), r.below(60), frac))
+        }
+        "Timestamp" if r.chance(1, 4) => {
+            let base = format!("{:04}-{:02}-{:02}T{:02}:{:02}:{:02}", 1950 + r.below(100), 1 + r.below(12), 1 + r.below(28), r.below(24), r.below(60), r.below(60));
+            let frac = if r.bool() { format!(".{:03}", r.below(1000)) } else { String::new() };
+            if dt["tz"].is_null() {
+                sval::string(&format!("{base}{frac}"))
+            } else {
+                sval::string(&format!("{base}{frac}Z"))
+            }
+        }
+        "Duration" if r.chance(1, 6) => sval::string(*r.pick(&["PT5S", "P1DT2H", "-PT0.5S", "PT0S", "P2W", "PT1H30M"])),
         "Date32" | "Time32" => {
             let v = boundary_int(r, i32::MIN as i128, i32::MAX as i128);
             match r.below(4) {
@@ -381,7 +402,24 @@ fn gen_inner(r: &mut Rng, dt: &Value, cfg: &ValCfg) -> Value {
             let v = boundary_int(r, i64::MIN as i128, if cfg.strict { i64::MAX as i128 } else { u64::MAX as i128 });
             int_call(r, v)
         }
-        "Decimal128" => sval::none(), // strings and floats into decimals are the codec suites' subject
+        "Decimal128" => match r.below(5) {
+            // the codec suite `decimal` covers the text grammar exhaustively; here decimals take part in nesting
+            0 => sval::none(),
+            1 | 2 => {
+                let int = r.below(200);
+                let frac = r.below(1000);
+                let txt = match r.below(5) {
+                    0 => format!("{int}"),
+                    1 => format!("-{int}.{frac:03}"),
+                    2 => format!("{int}."),
+                    3 => format!(".{frac}"),
+                    _ => format!("{int}.{frac}"),
+                };
+                sval::string(&txt)
+            }
+            3 => sval::f64v(*r.pick(&[0.0, 1.5, -2.25, 100.0, 0.001, 12345.678, -0.0])),
+            _ => sval::f32v(*r.pick(&[0.0f32, 1.5, -2.25, 7.0])),
+        },
         "Dictionary" => match r.below(5) {
             0 => sval::unit_variant("E", r.below(3) as u32, *r.pick(&["A", "Bee", ""])),
             _ => sval::string(*r.pick(&["x", "y", "", "zz", "日本", "a", "b", "c", "d"])),
@@ -721,4 +759,53 @@ pub fn rerender_record(r: &mut Rng, fields: &[Value], pairs: &[(String, Value)])
             sval::record(*r.pick(&["R", "S", "Other"]), fs)
         }
     }
+}
+
+fn decimal_scales(v: &Value, out: &mut Vec<i64>) {
+    match v {
+        Value::Object(m) => {
+            if m.get("t").and_then(|t| t.as_str()) == Some("Decimal128") {
+                if let Some(s) = m.get("s").and_then(|s| s.as_i64()) {
+                    if !out.contains(&s) {
+                        out.push(s);
+                    }
+                }
+            }
+            for (_, x) in m {
+                decimal_scales(x, out);
+            }
+        }
+        Value::Array(a) => {
+            for x in a {
+                decimal_scales(x, out);
+            }
+        }
+        _ => {}
+    }
+}
+
+/// aux table of a build-side case: float display strings and, for every float × every decimal scale of the
+/// schema, the float product the decimal builder computes (`(v * 10^scale)`, finite?, `as i128`) — external
+/// functions of the model.
+pub fn aux_for(schema: &Value, rows: &Value) -> Value {
+    let mut aux = float_strings(rows);
+    let mut scales = Vec::new();
+    decimal_scales(schema, &mut scales);
+    let mut casts = serde_json::Map::new();
+    if !scales.is_empty() {
+        let f32s: Vec<u32> = aux["f32_str"].as_object().unwrap().keys().map(|k| k.parse().unwrap()).collect();
+        let f64s: Vec<u64> = aux["f64_str"].as_object().unwrap().keys().map(|k| k.parse().unwrap()).collect();
+        for s in &scales {
+            for b in &f32s {
+                let scaled = (f32::from_bits(*b) * (10.0_f32).powi(*s as i32)) as f64;
+                casts.insert(format!("f32:{b}:{s}"), json!({"finite": scaled.is_finite(), "cast": (scaled as i128).to_string()}));
+            }
+            for b in &f64s {
+                let scaled = f64::from_bits(*b) * (10.0_f64).powi(*s as i32);
+                casts.insert(format!("f64:{b}:{s}"), json!({"finite": scaled.is_finite(), "cast": (scaled as i128).to_string()}));
+            }
+        }
+    }
+    aux["dec_cast"] = Value::Object(casts);
+    aux
 }
